@@ -372,6 +372,8 @@ def build(program, sched):
         c = program["cfg"]
         obj = CircuitBreaker(failure_threshold=c["threshold"], window_s=c["window"] * TAU,
                              recovery_timeout_s=c["recovery"] * TAU, trip_on={KL["T"]},
+                             class_thresholds={KL[k]: v for k, v in c["class_thresholds"].items()}
+                             if c.get("class_thresholds") else None,
                              clock=_faulty_clock)
     else:
         c = program["cfg"]
